@@ -128,7 +128,7 @@ fn augment(
     let mut back = BTreeMap::new();
 
     while let Some(v) = q.pop_front() {
-        for &w in &neighbors[&v] {
+        for &w in neighbors.get(&v).into_iter().flatten() {
             if !seen.contains(&w) && !path_edges.contains(&(v, w)) {
                 if edges.contains(&(v, w)) || path_edges.contains(&(w, v)) {
                     back.insert(w, v);
